@@ -266,9 +266,15 @@ func (ka *ecdheKeyAgreementGM) generateClientKeyExchange(config *Config, clientH
 		serialized = ourPublic[:]
 		preMasterSecret = sharedKey[:]
 	} else {
+		// ka.curveid and the point (ka.x, ka.y) come from the server's
+		// ServerKeyExchange, where the point was only checked against
+		// the SM2 curve.
 		curve, ok := curveForCurveID(ka.curveid)
 		if !ok {
-			panic("internal error")
+			return nil, nil, errors.New("tls: server selected unsupported curve")
+		}
+		if !curve.IsOnCurve(ka.x, ka.y) {
+			return nil, nil, errServerKeyExchange
 		}
 		priv, mx, my, err := elliptic.GenerateKey(curve, config.rand())
 		if err != nil {
